@@ -140,6 +140,8 @@ type Instance struct {
 	Time    int64
 	TxCount uint64
 
+	// GenesisClosed: InitGenesis leaves the chain at the boundary before block 1 (no BeginBlock).
+	GenesisClosed bool
 	// AnteSeq: bump signer sequences like the ante handler (persisting even when the
 	// message fails). Only MsgDelegateKeys reads sequences, so scenarios that do not
 	// use it leave this off to avoid splitting states on failed txs.
@@ -206,7 +208,20 @@ func New() *Instance {
 	in.Hub = hk.SetStakingKeeper(in.Staking)
 	in.Oracle = in.Oracle.SetMhub2Keeper(in.Hub)
 	in.hubH = mhub2.NewHandler(in.Hub)
-	in.oracleH = oracle.NewHandler(in.Oracle)
+	// app.go registers the oracle msg service (RegisterServices), which serves both claim types;
+	// the legacy handler only knows MsgPriceClaim. Route like the msg service router does.
+	oms := oraclekeeper.NewMsgServerImpl(in.Oracle)
+	legacy := oracle.NewHandler(in.Oracle)
+	in.oracleH = func(ctx sdk.Context, msg sdk.Msg) (*sdk.Result, error) {
+		ctx = ctx.WithEventManager(sdk.NewEventManager())
+		switch m := msg.(type) {
+		case *oracletypes.MsgHoldersClaim:
+			res, err := oms.HoldersClaim(sdk.WrapSDKContext(ctx), m)
+			return sdk.WrapServiceResult(ctx, res, err)
+		default:
+			return legacy(ctx, msg)
+		}
+	}
 	in.proposalH = mhub2.NewProposalsHandler(in.Hub)
 	in.mount(nil)
 	return in
@@ -306,9 +321,18 @@ func (in *Instance) InitGenesis(g Genesis) {
 	oraclekeeper.InitGenesis(ctx, in.Oracle, g.Oracle)
 	mhubkeeper.InitGenesis(ctx, in.Hub, g.Hub)
 	in.Events = nil
+	if in.GenesisClosed {
+		return
+	}
 	if p := in.BeginBlock(5); p != nil {
 		panic(fmt.Sprintf("BeginBlock(1) after genesis panicked: %v", p.Value))
 	}
+}
+
+// RestoreClosed loads a snapshot taken at a block boundary (no open block).
+func (in *Instance) RestoreClosed(s *Snapshot) {
+	in.Restore(s)
+	in.blockMS = nil
 }
 
 // Panic describes a recovered panic.
